@@ -563,9 +563,13 @@ def _threaded_job(snapname):
 
     def run_cmd(fn):
         del commands[:]
-        with stepped.patched_clock(rig.world.clock):
-            rig.world.net.clock.t = rig.world.now()
-            fn()
+        try:
+            with stepped.patched_clock(rig.world.clock):
+                rig.world.net.clock.t = rig.world.now()
+                fn()
+        except Exception as e:  # noqa - a facade command that raises is the library's failure, not the harness's
+            note(("raised", f"blocking facade command raised {e!r}"), "threaded command")
+            return [("raised", 0, 0, 0, repr(e))]
         rig.run_for(3.0)
         return list(commands)
 
